@@ -1,7 +1,10 @@
-package main
+// Package hlib is the shared part of the verification harness: seeded PRNG,
+// case shards (Gallina printers), result/evidence bookkeeping.
+package hlib
 
 import (
 	"encoding/json"
+	"flag"
 	"fmt"
 	"os"
 	"path/filepath"
@@ -26,11 +29,11 @@ func (r *Rng) Intn(n int) int {
 	}
 	return int(r.Next() % uint64(n))
 }
-func (r *Rng) Bool() bool         { return r.Next()&1 == 1 }
-func (r *Rng) Chance(p int) bool  { return r.Intn(100) < p }
-func (r *Rng) Pick(xs []int) int  { return xs[r.Intn(len(xs))] }
-func (r *Rng) Fork() *Rng         { return &Rng{s: r.Next()} }
-func (r *Rng) Int64() int64       { return int64(r.Next()) }
+func (r *Rng) Bool() bool           { return r.Next()&1 == 1 }
+func (r *Rng) Chance(p int) bool    { return r.Intn(100) < p }
+func (r *Rng) Pick(xs []int) int    { return xs[r.Intn(len(xs))] }
+func (r *Rng) Fork() *Rng           { return &Rng{s: r.Next()} }
+func (r *Rng) Int64() int64         { return int64(r.Next()) }
 func (r *Rng) Range(lo, hi int) int { return lo + r.Intn(hi-lo+1) }
 
 // ---------------------------------------------------------------- context
@@ -76,12 +79,12 @@ type Ctx struct {
 }
 
 type shard struct {
-	header  string
-	typ     string
-	footer  string
-	cases   []string
-	jsons   []interface{}
-	limit   int
+	header string
+	typ    string
+	footer string
+	cases  []string
+	jsons  []interface{}
+	limit  int
 }
 
 func NewCtx(prop, tier string, seed uint64, out, replay string) *Ctx {
@@ -212,46 +215,64 @@ func (c *Ctx) Finish() {
 }
 
 // ---------------------------------------------------------------- Gallina printers
-func coqZ(z int64) string {
+func CoqZ(z int64) string {
 	if z < 0 {
 		return fmt.Sprintf("(%d)", z)
 	}
 	return fmt.Sprintf("%d", z)
 }
-func coqN(n uint64) string { return fmt.Sprintf("%d", n) }
-func coqBool(b bool) string {
+func CoqN(n uint64) string { return fmt.Sprintf("%d", n) }
+func CoqBool(b bool) string {
 	if b {
 		return "true"
 	}
 	return "false"
 }
-func coqList(xs []string) string { return "[" + strings.Join(xs, ";") + "]" }
-func coqBools(bs []bool) string {
+func CoqList(xs []string) string { return "[" + strings.Join(xs, ";") + "]" }
+func CoqBools(bs []bool) string {
 	xs := make([]string, len(bs))
 	for i, b := range bs {
-		xs[i] = coqBool(b)
+		xs[i] = CoqBool(b)
 	}
-	return coqList(xs)
+	return CoqList(xs)
 }
-func coqBytes(bs []byte) string {
+func CoqBytes(bs []byte) string {
 	xs := make([]string, len(bs))
 	for i, b := range bs {
 		xs[i] = fmt.Sprintf("%d", b)
 	}
 	return "[" + strings.Join(xs, ";") + "]%N"
 }
-func coqOpt(s string, some bool) string {
+func CoqOpt(s string, some bool) string {
 	if !some {
 		return "None"
 	}
 	return "(Some " + s + ")"
 }
 
-func sortedKeys(m map[string]int) []string {
+func SortedKeys(m map[string]int) []string {
 	ks := make([]string, 0, len(m))
 	for k := range m {
 		ks = append(ks, k)
 	}
 	sort.Strings(ks)
 	return ks
+}
+
+// Main parses the common flags and runs one property driver.
+func Main(runners map[string]func(*Ctx)) {
+	prop := flag.String("prop", "", "property id")
+	tier := flag.String("tier", "quick", "quick|thorough")
+	seed := flag.Uint64("seed", 1, "seed")
+	out := flag.String("out", "", "output directory")
+	replay := flag.String("replay", "", "replay file")
+	flag.Parse()
+	r, ok := runners[*prop]
+	if !ok {
+		fmt.Fprintf(os.Stderr, "driver: unknown property %q\n", *prop)
+		os.Exit(2)
+	}
+	c := NewCtx(*prop, *tier, *seed, *out, *replay)
+	r(c)
+	c.Finish()
 }
